@@ -92,6 +92,12 @@ def check(run):
                     if not runnable:
                         break
                     add = set(rng.sample(runnable, rng.randint(1, len(runnable))))
+                    # sometimes several levels of the DAG complete between two looks at the status
+                    for _lvl in range(rng.choice([0, 0, 1, 2])):
+                        nxt = [i for i in range(n) if i not in cur and i not in add and all(dd in cur or dd in add for dd in P['info'][i]['reported']) and i not in locks]
+                        if not nxt:
+                            break
+                        add |= set(rng.sample(nxt, rng.randint(1, len(nxt))))
                     s = be.store()
                     for i in add:
                         s.dump(P['values'][i], P['hashes'][i])
